@@ -207,6 +207,19 @@ def page_free_fns(fns):
     return out
 
 
+def _is_working_page_test(f, l, r, pg, blk):
+    """one side is the page about to be released, the other the base of the page the cursor is in - written in place or
+    computed into a local beforehand (nothing in between may move the cursor: RU.origin's staleness rule)"""
+    evs = f.events()[blk]
+    use = evs[-1] if evs else None
+    forms = []
+    for x in (l, r):
+        o = RU.origin(f, x, use) if use is not None else x
+        forms.append({f.show(x), f.show(o) if o is not None else None})
+    wp = "s_page_base(bin->page_cursor)"
+    return (pg in forms[0] and wp in forms[1]) or (pg in forms[1] and wp in forms[0])
+
+
 def page_release(R, fns, P=None):
     f = fns["s_sba_free_to_bin"]
     dom = dominators(f)
@@ -229,7 +242,7 @@ def page_release(R, fns, P=None):
         lu, ru = RU.uncast(f, l), RU.uncast(f, r) if r is not None else None
         if lu["k"] == "member" and lu["f"] == "alloc_count" and f.show(lu["a"][0]) == pg and ru is not None and f.is_const(ru) == 0 and op in ("==", "<="):
             kinds.append("empty")
-        elif op == "!=" and ru is not None and {f.show(lu), f.show(ru)} == {pg, "s_page_base(bin->page_cursor)"}:
+        elif op == "!=" and ru is not None and _is_working_page_test(f, lu, ru, pg, b):
             kinds.append("not-working-page")
         else:
             kinds.append("other:" + f.show(f.d(c)) + ("" if p else " [false]"))
@@ -454,6 +467,73 @@ def metrics(R, P, fns):
     R.check(len(ga) == 1 and (RU.strip_addr(f, RU.arg(f, ga[0].node, 0)) or {}).get("f") == "active_pages", "PAGE-RELEASE", "metrics:walks-the-active-list", "%s()" % f.name, "every active page's header is read")
 
 
+def find_bin_by_table(R, P, fns, fb, sizes, mx):
+    """CLASSIFY/find-bin-offset, the other form: the class is looked up in s_bin_sizes itself.  NUM: at every read of
+    sba->bins[idx] the request fits the class (size <= s_bin_sizes[idx]): either idx is a constant, or the path has compared
+    s_bin_sizes[idx] - the table read at this very index - with the size.  The caller's guard size <= s_max_bin_size (checked
+    here) is the function's precondition."""
+    from sa.num import Num, Poly, Limit, entails
+    from sa.awslib import AwsHooks
+    from sa.bounds import access_sites
+    ints = [i for i, p_ in enumerate(fb.params) if "w" in (fb.unit.types[p_["t"]] or {})]
+    callers_ok, ncall = True, 0
+    for g_ in P.functions_in("source/allocator_sba.c"):
+        for e in g_.calls(fb.name):
+            ncall += 1
+            a_ = RU.resolve(g_, RU.arg(g_, e.node, ints[0])) if ints else None
+            gs = [RU.cmp_norm(g_, c, p) for c, p, b in RU.guards(g_, e)]
+            callers_ok &= any(g and g[2] is not None and a_ is not None and g_.show(g[0]) == g_.show(a_) and g[1] == "<=" and g_.show(g[2]) == "s_max_bin_size" for g in gs)
+    if not R.require(len(ints) == 1 and ncall >= 1 and mx is not None, "s_sba_find_bin: size parameter / callers not found"):
+        return
+    R.check(callers_ok, "CLASSIFY", "find-bin:callers-pass-small-sizes", "%s()" % fb.name, "every caller passes size <= s_max_bin_size")
+    pn = fb.params[ints[0]]
+
+    class H(AwsHooks):
+        def entry(self, num, st):
+            a = num.fresh(st, "size", None, (0, mx))
+            st.env["v:" + pn["n"]] = Poly.atom(a)
+            st.notes["size_atom"] = a
+            if hasattr(AwsHooks, "entry"):
+                AwsHooks.entry(self, num, st)
+    num = Num(fb, P, H(), max_paths=4000)
+    sites = []
+    for eid, kind, nd in access_sites(fb, include_addr=True):
+        if kind == "index":
+            b_ = RU.uncast(fb, nd["a"][0])
+            while b_ is not None and b_["k"] == "decay":
+                b_ = RU.uncast(fb, b_["a"][0])
+            if b_ is not None and b_["k"] == "member" and b_["f"] == "bins":
+                sites.append((eid, nd))
+    if not R.require(sites, "s_sba_find_bin: no read of sba->bins[...]"):
+        return
+    try:
+        sts = num.states_at({eid for eid, nd in sites})
+    except Limit as ex:
+        R.broken(str(ex))
+        return
+    ok, det, cnt = True, "", 0
+    for eid, nd in sites:
+        for st in sts.get(eid, []):
+            cnt += 1
+            iv = num.val(nd["a"][1], st)
+            sz = Poly.atom(st.notes["size_atom"])
+            fits = False
+            if iv is not None and iv.is_const() and 0 <= iv.cval() < len(sizes):
+                fits = entails(st, sz - sizes[iv.cval()])
+            if not fits and iv is not None:
+                for a, (tab, ix) in (st.notes.get("tabidx") or {}).items():
+                    if list(tab) == list(sizes) and ix is not None and (ix - iv).is_const() and (ix - iv).cval() == 0 and entails(st, sz - Poly.atom(a)):
+                        fits = True
+            if not fits and iv is not None:
+                for k_ in range(len(sizes)):
+                    if entails(st, iv - k_) and entails(st, Poly.const(k_) - iv) and entails(st, sz - sizes[k_]):
+                        fits = True
+            if not fits:
+                ok, det = False, "index %r" % (iv,)
+    R.check(ok and cnt >= 1, "CLASSIFY", "find-bin-offset", "%s()" % fb.name, "the class chosen holds the request: size <= s_bin_sizes[idx] at every bins[idx] (%d states)" % cnt,
+            "s_sba_find_bin can choose a class smaller than the request (%s): the block handed out is shorter than the requested size" % det)
+
+
 def classify(R, P, fns):
     g = P.globals.get("s_bin_sizes")
     R.require(g is not None and g.get("init") and "array" in g["init"], "s_bin_sizes table not found")
@@ -471,8 +551,11 @@ def classify(R, P, fns):
     R.check(all(s < 4096 // 2 for s in sizes), "CLASSIFY", "classes-below-half-page", FILE, "all classes < page/2")
     fb = fns["s_sba_find_bin"]
     subs = fb.calls("aws_sub_size_saturating")
-    R.check(len(subs) == 1 and fb.is_const(RU.arg(fb, subs[0].node, 1)) == 5 and sizes and sizes[0] == 2 ** 5, "CLASSIFY", "find-bin-offset", "%s()" % fb.name,
-            "index = log2(size) - 5 and the first class is 2^5", "s_sba_find_bin's offset does not match the first size class")
+    if subs:
+        R.check(len(subs) == 1 and fb.is_const(RU.arg(fb, subs[0].node, 1)) == 5 and sizes and sizes[0] == 2 ** 5, "CLASSIFY", "find-bin-offset", "%s()" % fb.name,
+                "index = log2(size) - 5 and the first class is 2^5", "s_sba_find_bin's offset does not match the first size class")
+    else:
+        find_bin_by_table(R, P, fns, fb, sizes, mx)
     # classification comparisons
     a = fns["s_sba_alloc"]
     ab = a.calls("s_sba_alloc_from_bin")
